@@ -118,6 +118,8 @@ class Explorer:
         self.max_paths = 200000
         self.split_after = 0
         self.leftover = []
+        self.witnesses = []
+        self.max_witnesses = 1
         self.samples = []
         self.params = {}
         self.ufs = {}
@@ -203,6 +205,7 @@ class Explorer:
         def vfReach(it_, args, fn):
             rid = args[0].decode()
             it.stats.reach[rid] = it.stats.reach.get(rid, 0) + 1
+            it.path.reached.append(rid)
             return None
         P['vfReach'] = vfReach
 
@@ -448,6 +451,19 @@ class Explorer:
                 st.unsupported[k] = st.unsupported.get(k, 0) + 1
             finally:
                 it.solver.pop()
+            if outcome == 'ok' and len(self.witnesses) < self.max_witnesses and path.pc is not None:
+                # translator validation / vacuity witness: one concrete input of a completed path, to be replayed natively
+                # (the native run must pass every assertion and reach the same markers)
+                try:
+                    it.solver.push()
+                    for c in path.pc: it.solver.add(c)
+                    if it.check() == z3.sat:
+                        m = it.solver.model()
+                        self.witnesses.append({'harness': self.harness, 'assert': 'witness', 'reached': list(path.reached),
+                                               'inputs': [{'fn': f, 'name': n, 'value': model_value(m, v)} for f, n, v in path.nondet], 'decisions': [], 'note': 'witness of a completed path'})
+                    it.solver.pop()
+                except Exception:
+                    pass
             if path.unknown_branch:
                 self.inconclusive.append(('unknown-branch', self.harness))
             st.paths += 1
@@ -464,7 +480,7 @@ class Explorer:
             'asserts_proved': st.asserts_proved, 'asserts_failed': st.asserts_failed,
             'unsupported': st.unsupported, 'unwind': st.unwind, 'reach': st.reach,
             'violations': [v.to_json() for v in self.violations], 'inconclusive': self.inconclusive[:20],
-            'leftover': self.leftover, 'functions': sorted(st.funcs), 'samples': self.samples, 'assumed_away': st.assumed_away, 'cuts': st.cuts,
+            'leftover': self.leftover, 'witnesses': self.witnesses, 'functions': sorted(st.funcs), 'samples': self.samples, 'assumed_away': st.assumed_away, 'cuts': st.cuts,
         }
 
 
